@@ -48,6 +48,9 @@ def main():
     if args.target == "soak":
         from simkit import selftest
         sys.exit(selftest.soak(args.rest, args.tier, verif_seed, PROPS))
+    if args.target == "seeded":
+        from simkit import mutants
+        sys.exit(mutants.seeded(args.rest, args.tier))
     if args.target == "refactors":
         from simkit import mutants
         sys.exit(mutants.main(args.rest, args.tier, folder="refactors", expect="HELD"))
